@@ -27,6 +27,9 @@ FLOORS = {'quick': {'evaluations': 300, 'nontrivial': 150, 'counters': {'safety_
 IDENTS = ['eval', 'exec', 'system', 'open', '__import__', 'getattr', 'foo_bar', 'a1', 'print', 'compile', 'x', 'os_2']
 PREFIX = ['', '', 'os.', 'run ', 'x=', '__builtins__.', '1+', '"', "it's "]
 ARGS = ['', '1', '1+1', 'a, b', "'ls -l'", '"rm"', 'x.y', '__name__', 'A1:B2', '1, 2, 3']
+# argument lists with bracket groups of their own: the cell has to be reported; which fragment text a (lazy or greedy) pattern cuts out of
+# it is not fixed by the statement, so only the address is judged for these
+NESTED_ARGS = ['(1+2)*3', '("ls")', '(1, 2)', 'a, (b)', '[1, (2)]', '((x))']
 SUFFIX = ['', '', ' # c', '.x', ' + 1', ';', '"']
 TITLES = ['S1', 'Data_2', 'my sheet', 'Лист1', '2024', 'a.b', 'Q (1)', 'x-y', 'T']
 INNOCENT = ['SUM(A1:A3)', 'hello (world)', 'IF(A1>1, "a", "b")', 'text', 'a (b) c', 42, 3.5, True, dt.datetime(2024, 5, 1),
@@ -37,10 +40,12 @@ def make_suspicious(rng, in_formula):
     n = 1 if rng.random() < 0.75 else 2
     parts, frags = [], []
     for _ in range(n):
-        ident, args = rng.choice(IDENTS), rng.choice(ARGS)
+        ident = rng.choice(IDENTS)
+        nested = rng.random() < 0.15
+        args = rng.choice(NESTED_ARGS) if nested else rng.choice(ARGS)
         pre = rng.choice(PREFIX)
         parts.append(pre + ident + '(' + args + ')')
-        frags.append(ident + '(' + args + ')')
+        frags.append(None if nested else ident + '(' + args + ')')
     text = rng.choice([' ', ' and ', '; ']).join(parts) + rng.choice(SUFFIX)
     if in_formula:
         text = '=' + text
@@ -141,7 +146,7 @@ def judge(r, spec, expected, planted, on, off, SafetyExc, idx):
             if set(got) != set(expected):
                 report(r, ID, None, case, {'reported_cells': sorted(got)}, {'planted_cells': sorted(expected)}, monitor='gate-addresses')
             else:
-                bad = {k: (got[k], expected[k]) for k in expected if list(got[k]) != list(expected[k])}
+                bad = {k: (got[k], expected[k]) for k in expected if None not in expected[k] and list(got[k]) != list(expected[k])}
                 if bad:
                     report(r, ID, None, case, bad, 'planted fragments', monitor='gate-fragments')
         for (s, row, col) in planted:
